@@ -249,7 +249,9 @@ PROPS = {
                 "branch of 1-3 commits on main's tip; approvals: an authorization for (main, from=main's tip, to=tree of the merge) signed by 0-3 of "
                 "{4 rule/other principal keys, root key}, sometimes for a different tree, sometimes absent; the merge is recorded as the feature tip "
                 "(fast-forward) or as a merge commit carrying the predicted tree, by each of 6 recorders (keys 4..7, root key, unsigned) on a fresh "
-                "copy of the history. Every case is non-trivial (each runs VerifyMergeable and 6 verifications)",
+                "copy of the history. A quarter of the cases add a file rule (src/*, *, or an odd-named path) and feature commits that touch "
+                "protected and unprotected paths and are signed by authorised, unauthorised, unknown keys or nobody. Every case is non-trivial "
+                "(each runs VerifyMergeable and 6 verifications)",
         "theorems": ["C19_prediction_meaning", "C19_outsider_changes_nothing", "C19_unsigned_is_outsider", "C19_unauthorised_is_outsider",
                      "C19_refuted_no_approvals_never_possible", "C19_refuted_threshold_one_verifies", "C19_refuted_K6", "C19_refuted_K9",
                      "C19_refuted_shared_keys", "C19_uncounted_authorised_recorder_verifies", "C19_counted_recorder_gains_nothing",
@@ -258,7 +260,9 @@ PROPS = {
             "partial: the 'signature needed' clause is proved at the verifier for principals holding one key each (shared keys: refuted); the lift "
             "of the verifier-level theorems through the verification loop and the global-rule reduction are evaluated per case on the "
             "implementation's answers (c19_check), not proved",
-            "file rules, code-review approvals (app attestations) and non-fast-forward three-way merges (GetMergeTree on diverged branches) are not generated",
+            "file rules are generated in a quarter of the cases (one policy state, no global rules: FileRules.verify_full_files); code-review approvals, "
+            "non-fast-forward three-way merges (GetMergeTree on diverged branches) and experimental/gittuf's Repository.VerifyMergeable wrapper "
+            "(WithBypassRSLForFeatureRef) are not exercised",
             "principals sharing keys are excluded from the histories (State.allPrincipals lists principals in map order); the shared-key refutation is a verifier-level theorem tied by the C05 correspondence",
         ],
         "assumptions": ["the branch's previous entry is unskipped and no policy or attestation entry is recorded between prediction and merge (as the property states)"],
